@@ -555,7 +555,6 @@ package redis
 //@ ensures {C10} !old(strArg(args, 0)) ==> err != nil && H_calls == old(H_calls)
 //@ loop 0
 //@   invariant arrayMsg != nil && 0 <= memberCount && memberCount + (nextMsg != nil ? 1 : 0) <= arrayMsg.index
-//@   invariant {C12} (forall k int :: 0 <= k && k < len(arrayMsg.msgs) ==> arrayMsg.msgs[k] != nil) ==> memberCount + (nextMsg != nil ? 1 : 0) == arrayMsg.index - atentry(arrayMsg.index) + (atentry(nextMsg) != nil ? 1 : 0)
 //@   decreases len(arrayMsg.msgs) - arrayMsg.index + (nextMsg != nil ? 1 : 0)
 
 //@ executor "ZCARD"
@@ -564,7 +563,6 @@ package redis
 //@ ensures {C10} !old(strArg(args, 0)) ==> err != nil && H_calls == old(H_calls)
 //@ loop 0
 //@   invariant arrayMsg != nil && 0 <= memberCount && memberCount + (nextMsg != nil ? 1 : 0) <= arrayMsg.index
-//@   invariant {C12} (forall k int :: 0 <= k && k < len(arrayMsg.msgs) ==> arrayMsg.msgs[k] != nil) ==> memberCount + (nextMsg != nil ? 1 : 0) == arrayMsg.index - atentry(arrayMsg.index) + (atentry(nextMsg) != nil ? 1 : 0)
 //@   decreases len(arrayMsg.msgs) - arrayMsg.index + (nextMsg != nil ? 1 : 0)
 
 //@ executor "SISMEMBER"
@@ -614,7 +612,6 @@ package redis
 //@   diverges
 
 // ---------------------------------------------------------------- further per-command contracts (C05 / C10 / C12), written by hand
-
 
 //@ executor "LPOP"
 //@ ensures {C05} old(strArg(args, 0)) && (old(intArg(args, 1)) || !old(hasArg(args, 1))) ==> H_calls == old(H_calls) + 1 && H_m[old(H_calls)] == "LPop" && H_conn[old(H_calls)] == conn && H_LPop_key[old(H_calls)] == old(argS(args, 0)) && result0 == H_res[old(H_calls)] && err == H_err[old(H_calls)]
